@@ -145,10 +145,25 @@ CHECKS = {
              "Programs exponential in memory are not generated.",
         design_ref="DESIGN.md section 3, C25",
     ),
+    "C26": dict(
+        engine="worldsim",
+        category="exploration",
+        technique="deterministic simulation of test schedules: seeded order / selection / file split of generated test pools "
+                  "run by the real `garden test`, with in-test crashes and a Ctrl-C injected at step k",
+        text="For each generated pool the verdict of every test run alone (-n) is the reference; the same pool run "
+             "together, as a seeded subset, with its files swapped, and with a Ctrl-C at step k must give each test the "
+             "same verdict and message, summary counts equal to the `Failed:` lines, exit status non-zero exactly when a "
+             "selected test did not pass; under Ctrl-C the running test is reported failed, no later test runs, and the "
+             "counts stay consistent.",
+        note="Apart from the interrupt, the faults are deterministic properties of the generated tests; the simulator's "
+             "contribution is the order/selection schedule and the crash-then-continue structure (pop_to_toplevel is the "
+             "recovery step under test). Non-terminating tests are not generated (`garden test` has no budget).",
+        design_ref="DESIGN.md section 3, C26",
+    ),
 }
 
 PENDING = {p: "claimed in DESIGN.md; its check is not built yet, so nothing is claimed for it in this manifest"
-           for p in ["C26", "C28"]}
+           for p in ["C28"]}
 
 NOT_APPLICABLE = {
     "C01": "lex/parse/check never crash: a pure function of one source string; no schedule, clock, fault or history to simulate (fuzzing territory)",
